@@ -212,6 +212,12 @@ fn check_exit_status(ctx: &Ctx, judgements: &[DocJudgement], out: &mut Vec<Viola
     } else {
         vec![0]
     };
+    // scrut's own stdout was cut off: a run that cannot deliver its report may end with 1 - but
+    // not with 0 when a test case failed
+    let mut allowed = allowed;
+    if ctx.facts.fault_kinds.iter().any(|k| k == "output_closed:stdout") && !allowed.contains(&1) {
+        allowed.push(1);
+    }
     if !allowed.contains(&status) {
         let class = match (status, allowed.as_slice()) {
             (0, _) => "exit-0-despite-failure",
